@@ -540,7 +540,7 @@ func report(prop string, ld *loaded, ws []*Worker, results []*HarnessResult, kno
 			out, detail := nativeReplay(ld, f, rp)
 			replayed++
 			f.Repro = out + " " + detail
-			if out == "fail" || out == "panic" || out == "hang" {
+			if confirms(f, out, detail) {
 				violations = append(violations, f)
 				confirmedPer[r.Harness]++
 			} else {
@@ -563,7 +563,7 @@ func report(prop string, ld *loaded, ws []*Worker, results []*HarnessResult, kno
 		writeReplay(rp, f)
 		out, detail := nativeReplay(ld, f, rp)
 		replayed++
-		if out == "fail" || out == "panic" || out == "hang" {
+		if confirms(f, out, detail) {
 			knownLines = append(knownLines, fmt.Sprintf("KNOWN-FINDING: property=%s %s: %s [%s; e.g. %s]", prop, id, known[id].What, f.Msg, strings.Join(renderInputs(f.Inputs), " ")))
 		} else {
 			unconfirmed++
@@ -576,6 +576,9 @@ func report(prop string, ld *loaded, ws []*Worker, results []*HarnessResult, kno
 	for _, f := range violations {
 		fmt.Printf("VIOLATION property=%s replay=%s\n", prop, f.Replay)
 		fmt.Printf("  harness=%s kind=%s msg=%q where=%s inputs=%s native=%s\n", f.Harness, f.Kind, f.Msg, f.Where, strings.Join(renderInputs(f.Inputs), " "), f.Repro)
+		if f.Kind == "panic" && f.Stack != "" {
+			fmt.Printf("  stack=%s\n", f.Stack)
+		}
 		exit = 1
 	}
 	if len(vacuous) > 0 {
@@ -587,6 +590,18 @@ func report(prop string, ld *loaded, ws []*Worker, results []*HarnessResult, kno
 	if unconfirmed > 0 && exit == 0 {
 		fmt.Printf("INCONSISTENT property=%s %d counterexample(s) did not reproduce natively (encoder/stub defect; not a verdict)\n", prop, unconfirmed)
 		exit = 2
+	}
+	if os.Getenv("GOSYM_NOSAMPLES") == "" {
+		nchecked, bad := nativeSamples(prop, ld, results)
+		replayed += nchecked
+		fmt.Fprintf(os.Stderr, "gosym: %d symbolically passing sample path(s) replayed natively, %d disagree\n", nchecked, len(bad))
+		for _, b := range bad {
+			fmt.Fprintf(os.Stderr, "gosym: %s\n", b)
+		}
+		if len(bad) > 0 && exit == 0 {
+			fmt.Printf("INCONSISTENT property=%s %d of %d symbolically passing sample path(s) do not pass natively (encoder, stub or harness defect; not a verdict)\n", prop, len(bad), nchecked)
+			exit = 2
+		}
 	}
 	if incomplete {
 		fmt.Printf("INCOMPLETE property=%s unwind=%d unsupported=%d undecided=%d truncated=%v\n", prop, totalPaths["unwind"], totalPaths["unsupported"], totalPaths["undecided"], anyTruncated(results))
@@ -616,6 +631,67 @@ func sumPaths(m map[string]int) int {
 		}
 	}
 	return n
+}
+
+// confirms reports whether the native outcome reproduces the failure found
+// symbolically: the same assertion message for an assertion (the race
+// detector's report for a lock discipline finding), a panic for a panic.
+func confirms(f *Failure, out, detail string) bool {
+	switch out {
+	case "hang":
+		return true
+	case "panic":
+		return f.Kind == "panic"
+	case "fail":
+		if strings.HasPrefix(detail, "data race") {
+			return strings.HasPrefix(f.Harness, "VerifC09_")
+		}
+		return f.Kind != "panic" && strings.TrimSpace(detail) == strings.TrimSpace(f.Msg)
+	}
+	return false
+}
+
+// nativeSamples replays one symbolically passing path per harness natively
+// (one test run per package) and returns the harnesses whose path does not
+// pass there: the native build and the encoding disagree, or the harness does
+// not work natively (and could then not confirm a counterexample either).
+func nativeSamples(prop string, ld *loaded, results []*HarnessResult) (checked int, bad []string) {
+	byPkg := map[string][]*HarnessResult{}
+	for _, r := range results {
+		if len(r.rawSamples) > 0 {
+			byPkg[ld.hpkg[r.Harness]] = append(byPkg[ld.hpkg[r.Harness]], r)
+		}
+	}
+	pkgs := make([]string, 0, len(byPkg))
+	for p := range byPkg {
+		pkgs = append(pkgs, p)
+	}
+	sort.Strings(pkgs)
+	for _, pkgRel := range pkgs {
+		var names []string
+		for n, p := range ld.hpkg {
+			if p == pkgRel {
+				names = append(names, n)
+			}
+		}
+		var paths, owners []string
+		for _, r := range byPkg[pkgRel] {
+			for k, smp := range r.rawSamples {
+				rp := filepath.Join(verifDir, ".work", fmt.Sprintf("sample-%s-%s-%d.json", prop, r.Harness, k))
+				writeReplay(rp, &Failure{Harness: r.Harness, Inputs: smp, Kind: "sample"})
+				paths = append(paths, rp)
+				owners = append(owners, r.Harness)
+			}
+		}
+		outs := runNativeMany(ld.files, pkgRel, names, paths)
+		for k, o := range outs {
+			checked++
+			if o != "pass" && !strings.HasPrefix(o, "pass ") {
+				bad = append(bad, fmt.Sprintf("%s: a path that passes symbolically gives natively: %s (replay %s)", owners[k], o, paths[k]))
+			}
+		}
+	}
+	return
 }
 
 func writeReplay(path string, f *Failure) {
